@@ -21,6 +21,8 @@ func (e *kvElection) heartbeatLoop(ctx context.Context) {
 	if maxHealthFailures <= 0 {
 		maxHealthFailures = 3
 	}
+	// The count belongs to this term: a new term starts from zero.
+	e.healthFailureCount.Store(0)
 
 	for {
 		select {
